@@ -39,7 +39,12 @@ def seg(P1, P2, X):
     c2 = np.einsum("ij,ij->i", c, c)
     n1 = np.sqrt(np.einsum("ij,ij->i", r1, r1))
     n2 = np.sqrt(np.einsum("ij,ij->i", r2, r2))
-    bad = (c2 <= 1e-24 * (n1 * n2) ** 2) | (n1 == 0) | (n2 == 0)
+    # a point is ON the segment's line when its distance |r1 x r2|/|r0| is below the round-off of the (double precision)
+    # coordinates it was built from; relative to the coordinate magnitude, not to the segment length (a cosine-clustered
+    # tip segment is 1e-4 of the span long)
+    coord = max(float(np.max(np.abs(P1))), float(np.max(np.abs(P2))), float(np.max(np.abs(X))) if X.size else 0.0, 1e-300)
+    l0 = float(np.sqrt(np.sum(r0 * r0)))
+    bad = (c2 <= (1e-12 * coord * l0) ** 2) | (c2 <= 1e-24 * (n1 * n2) ** 2) | (n1 == 0) | (n2 == 0)
     n1s = np.where(bad, 1.0, n1)
     n2s = np.where(bad, 1.0, n2)
     c2s = np.where(bad, 1.0, c2)
@@ -58,7 +63,8 @@ def semi(P, u, X):
     c = _cross(np.broadcast_to(u, r.shape), r)
     c2 = np.einsum("ij,ij->i", c, c)
     n = np.sqrt(np.einsum("ij,ij->i", r, r))
-    bad = c2 <= 1e-24 * n * n
+    coord = max(float(np.max(np.abs(P))), float(np.max(np.abs(X))) if X.size else 0.0, 1e-300)
+    bad = (c2 <= (1e-12 * coord) ** 2) | (c2 <= 1e-24 * n * n)
     ns = np.where(bad, 1.0, n)
     c2s = np.where(bad, 1.0, c2)
     out = c * ((1.0 + (r @ u) / ns) / c2s)[:, None] / FOURPI
